@@ -3,6 +3,7 @@ CONSTANTS
   Scripts <- AllScripts
   Direct = TRUE
   ForwardHalfClose = TRUE
+  JoinBeforeError = FALSE
   NeedFirstMessage = FALSE
 INVARIANTS TranscriptEquivalence BackendSawPrefix BackendSawAll NoPumpOutlivesHandler
 PROPERTY Finishes
